@@ -1,9 +1,78 @@
-"""C03 - see spec/QAlg.tla (properties C03_*) and harness/qalg.py."""
-from . import qalg
+"""C03 - sums and differences convert the right operand to the left one's units.
+
+Model side: spec/QAlg.tla (properties C03_*) with every generated sum replayed (harness/qalg.py).  Real-table side (direction B): sums over
+pairs of units of the real POSC table - neighbours in size (ft / ftUS, in / inUS, ...) first - recorded and validated by TLC
+(spec/MC_Judge.tla: SumAgrees); the reference amount uses the table conversion that C01 binds to the specification.
+"""
+import random
+
+from . import common, project as P, qalg
+
+
+def table_sum_events(env, rng, thorough):
+    import numpy
+    from barril.units import Array, Scalar
+
+    db = env.db
+    events = []
+    for qt, infos in db.quantity_types.items():
+        if qt in ("Unknown", "dimensionless") or len(infos) < 2:
+            continue
+        cat = db.GetDefaultCategory(infos[0].unit)
+        if not cat:
+            continue
+        scale_only = []
+        for i in infos:
+            z, one = db.Convert(qt, i.unit, infos[0].unit, 0.0), db.Convert(qt, i.unit, infos[0].unit, 1.0)
+            if z == 0.0 and one > 0.0 and abs(db.Convert(qt, i.unit, infos[0].unit, 2.0) - 2.0 * one) <= 1e-12 * one:
+                scale_only.append((one, i.unit))
+        scale_only.sort()
+        us = [u for _s, u in scale_only]
+        pairs = [(us[k], us[k + 1]) for k in range(len(us) - 1)] + [(us[k + 1], us[k]) for k in range(len(us) - 1)]
+        if not thorough and len(pairs) > 8:
+            # neighbours that are nearly the same size are kept, the rest is sampled
+            near = [(a, b) for a, b in pairs if abs(db.Convert(qt, a, b, 1.0) - 1.0) < 1e-3]
+            pairs = near[:8] + rng.sample(pairs, 4)
+        pairs += [tuple(rng.sample(us, 2)) for _ in range(8 if thorough else 2)] if len(us) > 2 else []
+        for u, v in pairs:
+            r = db.Convert(qt, v, u, 1.0)
+            x, y = 1.0e6, 1.0e6
+            for e in (1, 2):
+                def mk(val, unit, cls):
+                    a = Scalar(cat, val, unit) if cls == "Scalar" else Array(cat, numpy.array([val, 2 * val]) if cls == "ndarray" else [val, 2 * val], unit)
+                    if e == 2:
+                        a = a * (Scalar(cat, 1.0, unit) if cls == "Scalar" else Array(cat, [1.0, 1.0], unit))
+                    return a
+                for cls in ("Scalar", "list", "ndarray"):
+                    for opn, sgn in (("+", 1.0), ("-", -1.0)):
+                        a, b = mk(x, u, cls), mk(y, v, cls)
+                        o = P.outcome((lambda: a + b) if sgn > 0 else (lambda: a - b))
+                        want = x + sgn * y * r ** e
+                        ev = {"op": "SumAgrees", "call": "%s %s %s, exponent %d" % (cls, opn, cls, e), "qtype": qt, "u": u, "v": v, "ok": o[0] == "ok",
+                              "ppt": 2 ** 31 - 1, "units_kept": False, "left_kept": False, "want": want}
+                        if o[0] == "ok":
+                            got = o[1].GetAbstractValue()
+                            got = [float(g) for g in got] if cls != "Scalar" else [float(got)]
+                            wants = [want] if cls == "Scalar" else [want, 2 * want]
+                            scale = abs(x) + abs(y * r ** e)
+                            ev["ppt"] = max(min(2 ** 31 - 1, int(abs(g - w) / (scale * (k + 1)) * 1e12)) for k, (g, w) in enumerate(zip(got, wants)))
+                            ev["got"] = got
+                            ev["units_kept"] = o[1].GetQuantity() == a.GetQuantity()
+                            left = a.GetAbstractValue()
+                            ev["left_kept"] = ([float(z) for z in left] if cls != "Scalar" else [float(left)]) == ([x, 2 * x] if cls != "Scalar" else [x])
+                        else:
+                            ev["exc"] = o[2]
+                        events.append(ev)
+    return events
 
 
 def main(tier):
     rep, bd, env, stats = qalg.run("C03", tier, "sum", "")
-    return qalg.finish(rep, env, rule="every transition TLC generates for the bounded quantity-algebra machine whose last step is "
+    events = table_sum_events(env, random.Random(common.seed() + 3), tier == "thorough")
+    common.judge_trace(rep, bd, events, "sums and differences over pairs of units of the real table (neighbours in size included)",
+                       key_of=lambda ev: {"check": "table sum " + ev["call"], "qtype": ev["qtype"], "u": ev["u"], "v": ev["v"]})
+    return qalg.finish(rep, env, rule="(a) every transition TLC generates for the bounded quantity-algebra machine whose last step is "
                        "an addition or subtraction (operands built by up to two products/quotients/powers of "
-                       "table units) is executed on real Scalars and compared with the prediction; distinct = distinct (pool, call) pairs")
+                       "table units) is executed on real Scalars and compared with the prediction; distinct = distinct (pool, call) pairs; "
+                       "(b) sums / differences of Scalars and Arrays over pairs of scale-only units of every quantity type of the real table, "
+                       "at exponent 1 and 2, validated by TLC against the table conversion")
